@@ -127,3 +127,88 @@ pub fn now_secs() -> i64 {
 pub fn hex(b: &[u8]) -> String {
     b.iter().map(|x| format!("{:02x}", x)).collect()
 }
+
+pub fn unhex(s: &str) -> Vec<u8> {
+    (0..s.len() / 2).map(|i| u8::from_str_radix(&s[2 * i..2 * i + 2], 16).unwrap_or(0)).collect()
+}
+
+/// A child process running code under test: one request line in, one JSON line out.  A child that
+/// dies (abort, stack overflow, allocation failure) or does not answer in time is an outcome.
+pub struct Worker {
+    pub child: std::process::Child,
+    sub: String,
+    timeout_s: u64,
+    mem_kb: u64,
+    stdin: std::process::ChildStdin,
+    rx: std::sync::mpsc::Receiver<String>,
+    errlog: String,
+    pub restarts: usize,
+}
+
+impl Worker {
+    pub fn spawn(sub: &str, errlog: &str, timeout_s: u64, mem_kb: u64) -> Worker {
+        use std::io::BufRead;
+        let err = std::fs::File::create(errlog).expect("errlog");
+        // an address-space limit (ulimit -v) turns runaway allocation into an abort of the child only
+        let exe = std::env::current_exe().unwrap();
+        let mut cmd = if mem_kb > 0 {
+            let mut c = std::process::Command::new("sh");
+            c.arg("-c").arg(format!("ulimit -v {}; exec \"{}\" {}", mem_kb, exe.display(), sub));
+            c
+        } else {
+            let mut c = std::process::Command::new(exe);
+            c.arg(sub);
+            c
+        };
+        let mut child = cmd
+            .stdin(std::process::Stdio::piped())
+            .stdout(std::process::Stdio::piped())
+            .stderr(err)
+            .spawn()
+            .expect("spawn ingest-child");
+        let stdin = child.stdin.take().unwrap();
+        let stdout = child.stdout.take().unwrap();
+        let (tx, rx) = std::sync::mpsc::channel();
+        std::thread::spawn(move || {
+            for l in std::io::BufReader::new(stdout).lines() {
+                match l {
+                    Ok(l) => {
+                        if tx.send(l).is_err() {
+                            break;
+                        }
+                    }
+                    Err(_) => break,
+                }
+            }
+        });
+        Worker { child, sub: sub.to_string(), timeout_s, mem_kb, stdin, rx, errlog: errlog.to_string(), restarts: 0 }
+    }
+
+    /// one request; a dead or stuck child is an outcome
+    pub fn call(&mut self, line: &str) -> Value {
+        use std::io::Write;
+        let sent = writeln!(self.stdin, "{}", line).and_then(|_| self.stdin.flush());
+        let r = if sent.is_ok() { self.rx.recv_timeout(std::time::Duration::from_secs(self.timeout_s)) } else { Err(std::sync::mpsc::RecvTimeoutError::Disconnected) };
+        match r {
+            Ok(l) => serde_json::from_str(&l).unwrap_or(serde_json::json!({"outcome":"garbled","answered":false,"detail":l})),
+            Err(e) => {
+                let hung = matches!(e, std::sync::mpsc::RecvTimeoutError::Timeout);
+                if hung {
+                    let _ = self.child.kill();
+                }
+                let status = self.child.wait().map(|s| format!("{}", s)).unwrap_or_default();
+                let mut tail = std::fs::read_to_string(&self.errlog).unwrap_or_default();
+                if tail.len() > 300 {
+                    tail = tail[tail.len() - 300..].to_string();
+                }
+                let errlog = self.errlog.clone();
+                let restarts = self.restarts + 1;
+                let (sub, t, m) = (self.sub.clone(), self.timeout_s, self.mem_kb);
+                *self = Worker::spawn(&sub, &errlog, t, m);
+                self.restarts = restarts;
+                serde_json::json!({"outcome": if hung { "hang" } else { "abort" }, "answered": false, "detail": format!("{} {}", status, tail.replace('\n', " "))})
+            }
+        }
+    }
+}
+
